@@ -3,13 +3,19 @@
 //!   TW <S|T|N> <d> <start> <cap> <op,..>      TimeWindow::new + add_event (`a`) / record (`r`)
 //!   WM <S|T|N> <d> <cap> <maxw> <ev,..>       WindowManager::process_event
 //!   WS T <d> <cap> <ev,..>                    WindowedStream::new (tumbling)
+//!   WS <S|N> <d> <cap> <ev,..>                WindowedStream::new (sliding / session config; N: timeout = duration = d)
 //!   AN <-|S|T> <d> <cap> <now@ev[x][y],..>    StreamAlphaNode::process_event under the injected clock
-//! ev := <ts>:<val>   val := n<int> (Value::Number) | i<int> (Value::Integer) | s (String) | m (missing)
+//!   AN E <timeout> <cap> <now@ev[x][y],..>    the same with a session window (its unused `duration` is 3*timeout+7)
+//!   AG <ev,..>                                the other aggregates of Aggregator::aggregate over one window holding all the events:
+//!                                             obs := first/last/count_distinct/key=count,..(by key, `_` = empty)/p0,p25,p50,p75,p100/std(+|-)
+//! ev := <ts>:<val>   val := n<int> (Value::Number) | i<int> (Value::Integer) | s (String "7") | t<int> (String of the integer) | m (missing)
 //! event id = position in the case's list.  x = foreign stream name, y = foreign event type.
 //! obs (`;` between steps, `+` between windows, `/` between fields, `-` = empty / None, `_` = no window):
 //!   TW step  := ret/start/stop/ids/T~A~E~O     T,A,O := count,sum,avg,min,max   E := count,sum,avg
 //!   WM step  := window+window…                 window := start/stop/ids/T
-//!   WS       := window+window…;sorted counts() (windows sorted by start: they come out of a HashMap)
+//!   WS T     := window+window…;sorted counts() (windows sorted by start: they come out of a HashMap)
+//!   WS S|N   := window+window…;counts()        (both in the order the code returns them), or `hang`:
+//!               the constructor runs in a child process of this binary and is killed after WS_DEADLINE_MS
 //!   AN step  := ret/ids
 //! sum/min/max are printed as integers (all generated numeric fields are integer valued, so the
 //! f64 results are exact), avg as the f64 bit pattern; a non-integral value prints as f<bits>.
@@ -57,6 +63,9 @@ fn parse_ev(tok: &str) -> Option<Ev> {
         b'n' | b'i' => {
             val[1..].parse::<i64>().ok()?;
         }
+        b't' => {
+            val[1..].parse::<i64>().ok()?;
+        }
         b's' | b'm' if val.len() == 1 => {}
         _ => return None,
     }
@@ -74,6 +83,9 @@ fn mk_event(id: usize, e: &Ev) -> StreamEvent {
         }
         b's' => {
             data.insert(FIELD.to_string(), Value::String("7".to_string()));
+        }
+        b't' => {
+            data.insert(FIELD.to_string(), Value::String(e.val[1..].parse::<i64>().unwrap().to_string()));
         }
         _ => {
             data.insert("other".to_string(), Value::Number(3.0));
@@ -241,7 +253,7 @@ fn exec_wm(t: &[&str]) -> Option<String> {
 
 fn exec_ws(t: &[&str]) -> Option<String> {
     if t[1] != "T" {
-        return None;
+        return exec_ws_sliding(t);
     }
     let (d, cap) = (t[2].parse::<u64>().ok()?, t[3].parse::<usize>().ok()?);
     let evs: Vec<StreamEvent> = list(t[4])
@@ -259,10 +271,96 @@ fn exec_ws(t: &[&str]) -> Option<String> {
     Some(format!("{};{}", first, join_nums(&counts)))
 }
 
+/// deadline for one sliding/session `WindowedStream::new` (the grid has at most a few dozen windows)
+const WS_DEADLINE_MS: u64 = 800;
+/// once this many cases of one run have hung, the tree is broken anyway: the remaining ones get a short deadline
+const WS_HANGS_BEFORE_SHORT: usize = 6;
+const WS_SHORT_DEADLINE_MS: u64 = 120;
+static WS_HANGS: std::sync::atomic::AtomicUsize = std::sync::atomic::AtomicUsize::new(0);
+const INPROC: &str = "RRE_C12_INPROC";
+
+/// sliding / session `WindowedStream::new`, in-process
+fn ws_sliding_inproc(t: &[&str]) -> Option<String> {
+    let (d, cap) = (t[2].parse::<u64>().ok()?, t[3].parse::<usize>().ok()?);
+    let evs: Vec<StreamEvent> = list(t[4])
+        .iter()
+        .enumerate()
+        .map(|(i, tok)| parse_ev(tok).map(|e| mk_event(i, &e)))
+        .collect::<Option<Vec<_>>>()?;
+    let cfg = match t[1] {
+        "S" => WindowConfig::sliding(Duration::from_millis(d)),
+        "N" => WindowConfig::session(Duration::from_millis(d)),
+        _ => return None,
+    }
+    .with_max_events(cap);
+    let s = WindowedStream::new(evs.clone(), cfg.clone());
+    let first = windows_obs(&s.windows().iter().collect::<Vec<_>>());
+    let counts = WindowedStream::new(evs, cfg).counts();
+    Some(format!("{};{}", first, join_nums(&counts)))
+}
+
+/// The constructor may not return (before fix-C12c it did not for durations <= 1 ms, allocating all the while),
+/// and a thread cannot be stopped: the call runs in a child process of this same binary (`exec` mode, one case,
+/// `RRE_C12_INPROC` set) that is killed at the deadline. Observation `hang` = no answer within the deadline.
+fn exec_ws_sliding(t: &[&str]) -> Option<String> {
+    use std::io::{Read, Write};
+    use std::process::{Command, Stdio};
+    if std::env::var_os(INPROC).is_some() {
+        return ws_sliding_inproc(t);
+    }
+    let exe = std::env::current_exe().ok()?;
+    let mut child = Command::new(exe)
+        .arg("exec")
+        .env(INPROC, "1")
+        .stdin(Stdio::piped())
+        .stdout(Stdio::piped())
+        .stderr(Stdio::null())
+        .spawn()
+        .ok()?;
+    {
+        let mut stdin = child.stdin.take()?;
+        let _ = writeln!(stdin, "{}", t.join(" "));
+    }
+    let start = std::time::Instant::now();
+    let deadline = if WS_HANGS.load(std::sync::atomic::Ordering::Relaxed) >= WS_HANGS_BEFORE_SHORT {
+        WS_SHORT_DEADLINE_MS
+    } else {
+        WS_DEADLINE_MS
+    };
+    loop {
+        match child.try_wait() {
+            Ok(Some(_)) => break,
+            Ok(None) => {
+                if start.elapsed() > Duration::from_millis(deadline) {
+                    let _ = child.kill();
+                    let _ = child.wait();
+                    WS_HANGS.fetch_add(1, std::sync::atomic::Ordering::Relaxed);
+                    return Some("hang".into());
+                }
+                std::thread::sleep(Duration::from_micros(200));
+            }
+            Err(_) => return None,
+        }
+    }
+    let mut out = String::new();
+    child.stdout.take()?.read_to_string(&mut out).ok()?;
+    let line = out.lines().next()?.trim().to_string();
+    if line.is_empty() {
+        None
+    } else {
+        Some(line)
+    }
+}
+
 fn exec_an(t: &[&str]) -> Option<String> {
     let (d, cap) = (t[2].parse::<u64>().ok()?, t[3].parse::<usize>().ok()?);
     let spec = match t[1] {
         "-" => None,
+        // session: `d` is the timeout; the node does not read `duration` in this mode, so it is set to something else
+        "E" => Some(WindowSpec {
+            duration: Duration::from_millis(3 * d + 7),
+            window_type: WindowType::Session { timeout: Duration::from_millis(d) },
+        }),
         s => Some(WindowSpec { duration: Duration::from_millis(d), window_type: wtype(s)? }),
     };
     let mut node = StreamAlphaNode::new(STREAM, Some(ETYPE.to_string()), spec).with_max_events(cap);
@@ -279,6 +377,52 @@ fn exec_an(t: &[&str]) -> Option<String> {
     Some(if steps.is_empty() { "-".into() } else { steps.join(";") })
 }
 
+/// First, Last, CountDistinct, CountBy, Percentile 0/25/50/75/100, StdDev (defined or not) of one window
+fn exec_ag(t: &[&str]) -> Option<String> {
+    let mut w = TimeWindow::new(WindowType::Sliding, Duration::from_millis(1_000_000), 0, 100_000);
+    for (i, tok) in list(t[1]).iter().enumerate() {
+        let e = parse_ev(tok)?;
+        if !w.add_event(mk_event(i, &e)) {
+            return None;
+        }
+    }
+    let f = || FIELD.to_string();
+    let text = |r: AggregationResult| match r {
+        AggregationResult::Text(s) => s,
+        AggregationResult::None => "-".to_string(),
+        _ => "?".to_string(),
+    };
+    let first = text(Aggregator::new(AggregationType::First).aggregate(&w));
+    let last = text(Aggregator::new(AggregationType::Last).aggregate(&w));
+    let distinct = onum(ar(Aggregator::new(AggregationType::CountDistinct { field: f() }).aggregate(&w)));
+    let by = match Aggregator::new(AggregationType::CountBy { field: f() }).aggregate(&w) {
+        AggregationResult::CountMap(m) => {
+            let mut v: Vec<(i64, String, usize)> =
+                m.into_iter().map(|(k, c)| (k.parse::<i64>().unwrap_or(i64::MIN), k, c)).collect();
+            v.sort();
+            if v.is_empty() {
+                "_".to_string()
+            } else {
+                v.iter()
+                    .map(|(n, k, c)| if *n == i64::MIN { format!("x{}={}", hex(k), c) } else { format!("{}={}", n, c) })
+                    .collect::<Vec<_>>()
+                    .join(",")
+            }
+        }
+        _ => "?".to_string(),
+    };
+    let pcts: Vec<String> = [0.0, 25.0, 50.0, 75.0, 100.0]
+        .iter()
+        .map(|p| onum(ar(Aggregator::new(AggregationType::Percentile { field: f(), percentile: *p }).aggregate(&w))))
+        .collect();
+    let std = match Aggregator::new(AggregationType::StdDev { field: f() }).aggregate(&w) {
+        AggregationResult::Number(_) => "+",
+        AggregationResult::None => "-",
+        _ => "?",
+    };
+    Some(format!("{}/{}/{}/{}/{}/{}", first, last, distinct, by, pcts.join(","), std))
+}
+
 fn exec_inner(case: &str) -> Option<String> {
     let t: Vec<&str> = case.split_whitespace().collect();
     match (t.first().copied(), t.len()) {
@@ -286,6 +430,7 @@ fn exec_inner(case: &str) -> Option<String> {
         (Some("WM"), 6) => exec_wm(&t),
         (Some("WS"), 5) => exec_ws(&t),
         (Some("AN"), 5) => exec_an(&t),
+        (Some("AG"), 2) => exec_ag(&t),
         _ => None,
     }
 }
@@ -400,6 +545,65 @@ fn gen_ws(rng: &mut Rng) -> String {
     format!("WS T {} {} {}", d, cap, gen_evs(rng, len, 0, hi))
 }
 
+/// sliding / session `WindowedStream::new`: durations from 1 ms (step 1) upward, odd and even (step = d/2 rounds down)
+fn gen_ws_sliding(rng: &mut Rng) -> String {
+    let ty = if rng.chance(2, 3) { "S" } else { "N" };
+    let d = *rng.pick(&[1u64, 1, 2, 3, 4, 5, 7, 8, 10, 13]);
+    let d = if rng.chance(1, 50) { 0 } else { d };
+    let cap = *rng.pick(&[0usize, 1, 2, 3, 100, 100, 100]);
+    let len = rng.below(13) as usize;
+    let lo = rng.below(6);
+    let hi = lo + *rng.pick(&[0u64, 3, 8, 20, 40]);
+    format!("WS {} {} {} {}", ty, d, cap, gen_evs(rng, len, lo, hi))
+}
+
+/// sliding / session manager: fixed windows opened at event timestamps; dense timestamps so that windows overlap
+fn gen_wm_fixed(rng: &mut Rng) -> String {
+    let ty = if rng.chance(2, 3) { "S" } else { "N" };
+    let d = *rng.pick(&[1u64, 2, 3, 5, 8, 10, 10]);
+    let d = if rng.chance(1, 50) { 0 } else { d };
+    let cap = *rng.pick(&[0usize, 1, 2, 3, 100, 100, 100]);
+    let maxw = *rng.pick(&[0usize, 1, 2, 3, 5, 100, 100, 100]);
+    let len = rng.below(13) as usize;
+    let hi = *rng.pick(&[8u64, 20, 40]);
+    format!("WM {} {} {} {} {}", ty, d, cap, maxw, gen_evs(rng, len, 0, hi))
+}
+
+/// session alpha node: gaps around the timeout (timeout-1, timeout, timeout+1), late events, a clock that runs ahead
+fn gen_an_session(rng: &mut Rng) -> String {
+    let timeout = *rng.pick(&[0u64, 1, 2, 3, 5, 8]);
+    let cap = *rng.pick(&[0usize, 1, 2, 3, 100, 100, 10000]);
+    let len = rng.below(13) as usize;
+    let mut now = rng.below(30);
+    let mut last = now;
+    let mut ops = Vec::new();
+    for _ in 0..len {
+        now += match rng.below(6) {
+            0 => timeout + 1,
+            1 => timeout,
+            2 => timeout + 2 + rng.below(4),
+            _ => rng.below(timeout + 2),
+        };
+        let ts = match rng.below(10) {
+            0 => last + timeout,
+            1 => last + timeout + 1,
+            2 => last.saturating_sub(rng.below(timeout + 3)), // late
+            3 => now.saturating_sub(timeout),
+            4 => now.saturating_sub(timeout + 1),             // stale at the clock
+            5 => now + rng.below(3),                          // slightly in the future
+            _ => now.saturating_sub(rng.below(timeout + 1)),
+        };
+        last = ts;
+        let fl = match rng.below(16) {
+            0 => "x",
+            1 => "y",
+            _ => "",
+        };
+        ops.push(format!("{}@{}:{}{}", now, ts, gen_val(rng), fl));
+    }
+    format!("AN E {} {} {}", timeout, cap, join_nums(&ops))
+}
+
 fn gen_an(rng: &mut Rng) -> String {
     let ty = match rng.below(12) {
         0 => "-",
@@ -440,6 +644,145 @@ fn gen_an(rng: &mut Rng) -> String {
     format!("AN {} {} {} {}", ty, d, cap, join_nums(&ops))
 }
 
+/// the other aggregates: few distinct values so that duplicates, Number/Integer/String twins of one value and ties in the
+/// order statistics are frequent; lengths 0..12 and sometimes up to 40
+fn gen_ag(rng: &mut Rng) -> String {
+    let len = if rng.chance(1, 8) { rng.range(13, 40) } else { rng.below(13) } as usize;
+    let dom = *rng.pick(&[2u64, 4, 9, 30]);
+    let evs: Vec<String> = (0..len)
+        .map(|i| {
+            let v = rng.below(dom) as i64 - 1 + if dom == 9 { 3 } else { 0 };
+            let val = match rng.below(12) {
+                0 => "s".to_string(),
+                1 => "m".to_string(),
+                2 | 3 => format!("t{}", v),
+                4..=7 => format!("n{}", v),
+                _ => format!("i{}", v),
+            };
+            format!("{}:{}", i, val)
+        })
+        .collect();
+    format!("AG {}", join_nums(&evs))
+}
+
+/// Family "many": ONE window holding 33..130 events (beyond any small-block special case in an aggregate), integer
+/// values, mixed numeric / non-numeric; through `record`, `add_event`, a tumbling manager and a tumbling / sliding
+/// `WindowedStream`. Aggregates are compared with the fold over exactly the events (model) and by `aggOk` (oracle).
+fn gen_many(rng: &mut Rng, k: usize) -> String {
+    let len = match k % 12 {
+        0 => 33,
+        1 => 34,
+        2 => 40,
+        3 => 63,
+        4 => 64,
+        5 => 65,
+        6 => 66,
+        7 => 100,
+        8 => 129,
+        9 => 130,
+        _ => rng.range(33, 130) as usize,
+    };
+    let span = *rng.pick(&[50u64, 200, 1000]);
+    let vals = |rng: &mut Rng| -> String {
+        match rng.below(12) {
+            0 => "s".into(),
+            1 => "m".into(),
+            2..=6 => format!("n{}", rng.range(0, 40) as i64 - 7),
+            _ => format!("i{}", rng.range(0, 40) as i64 - 7),
+        }
+    };
+    match (k / 12) % 5 {
+        0 => {
+            // sliding `record`, everything stays inside the trailing duration
+            let ts = gen_ts(rng, len, 0, span);
+            let ops: Vec<String> = ts.iter().map(|t| format!("r{}:{}", 1000 + t, vals(rng))).collect();
+            format!("TW S {} 0 1000 {}", 2 * span + 1, join_nums(&ops))
+        }
+        1 => {
+            let ts = gen_ts(rng, len, 0, span);
+            let ops: Vec<String> = ts.iter().map(|t| format!("a{}:{}", 500 + t, vals(rng))).collect();
+            format!("TW T {} 500 1000 {}", span + 1, join_nums(&ops))
+        }
+        2 => {
+            let ts = gen_ts(rng, len, 0, span);
+            let evs: Vec<String> = ts.iter().map(|t| format!("{}:{}", 3 * (span + 1) + t, vals(rng))).collect();
+            format!("WM T {} 1000 100 {}", span + 1, join_nums(&evs))
+        }
+        3 => {
+            let ts = gen_ts(rng, len, 0, span);
+            let evs: Vec<String> = ts.iter().map(|t| format!("{}:{}", 3 * (span + 1) + t, vals(rng))).collect();
+            format!("WS T {} 1000 {}", span + 1, join_nums(&evs))
+        }
+        _ => {
+            // sliding WindowedStream: few, well-filled overlapping windows
+            let ts = gen_ts(rng, len, 0, 12);
+            let evs: Vec<String> = ts.iter().map(|t| format!("{}:{}", 100 + t, vals(rng))).collect();
+            format!("WS S 20 1000 {}", join_nums(&evs))
+        }
+    }
+}
+
+/// Family "epoch": any case with every timestamp (event times, window start, clock) moved up by a large base —
+/// epoch milliseconds as `StreamEvent::new` stamps them, and values around 2^32 / 2^40 — so that quotients
+/// `timestamp / duration` exceed 32 bits. Timestamps are u64 in the code, `Nat` in the model, decimal on the wire.
+const BASES: [u64; 6] = [1_700_000_000_123, (1 << 40) - 3, (1 << 40) + 5, (1 << 32) - 2, (1 << 32) * 250 + 17, 1 << 53];
+
+fn shift_ev(tok: &str, base: u64) -> String {
+    match tok.split_once(':') {
+        Some((ts, rest)) => match ts.parse::<u64>() {
+            Ok(t) => format!("{}:{}", t + base, rest),
+            Err(_) => tok.to_string(),
+        },
+        None => tok.to_string(),
+    }
+}
+
+fn shift_case(case: &str, base: u64) -> String {
+    let t: Vec<&str> = case.split_whitespace().collect();
+    let last = t.len() - 1;
+    let items: Vec<String> = list(t[last])
+        .iter()
+        .map(|it| match t[0] {
+            "TW" => format!("{}{}", &it[..1], shift_ev(&it[1..], base)),
+            "AN" => match it.split_once('@') {
+                Some((now, ev)) => format!("{}@{}", now.parse::<u64>().map(|n| n + base).unwrap_or(0), shift_ev(ev, base)),
+                None => it.to_string(),
+            },
+            _ => shift_ev(it, base),
+        })
+        .collect();
+    let mut head: Vec<String> = t[..last].iter().map(|x| x.to_string()).collect();
+    if t[0] == "TW" {
+        head[3] = (t[3].parse::<u64>().unwrap_or(0) + base).to_string();
+    }
+    format!("{} {}", head.join(" "), join_nums(&items))
+}
+
+fn gen_epoch(rng: &mut Rng, k: usize) -> String {
+    let base = BASES[k % BASES.len()];
+    let case = match (k / BASES.len()) % 9 {
+        0 => gen_tw(rng),
+        1 | 2 => {
+            // tumbling manager / windowed stream with the short durations of real configurations
+            let d = *rng.pick(&[1u64, 10, 100, 250]);
+            let len = rng.range(1, 12) as usize;
+            let evs = gen_evs(rng, len, 0, 3 * d);
+            if rng.chance(1, 2) {
+                format!("WM T {} 100 100 {}", d, evs)
+            } else {
+                format!("WS T {} 100 {}", d, evs)
+            }
+        }
+        3 => gen_wm(rng),
+        4 => gen_ws(rng),
+        5 => gen_an(rng),
+        6 => gen_wm_fixed(rng),
+        7 => gen_ws_sliding(rng),
+        _ => gen_an_session(rng),
+    };
+    shift_case(&case, base)
+}
+
 /// every timestamp sequence of length <= k over 0..dom for `record` on a sliding window
 fn exhaustive_records(k: usize, dom: u64, out: &mut Vec<String>) {
     let mut frontier: Vec<Vec<u64>> = vec![vec![]];
@@ -477,6 +820,32 @@ fn exhaustive_records(k: usize, dom: u64, out: &mut Vec<String>) {
         let evs: Vec<String> = s.iter().map(|t| format!("{}:n{}", t, t)).collect();
         out.push(format!("WM T 2 100 100 {}", join_nums(&evs)));
         out.push(format!("WS T 2 100 {}", join_nums(&evs)));
+        // sliding manager (fixed windows, first fit), with and without a binding window limit; session twin
+        out.push(format!("WM S 2 100 100 {}", join_nums(&evs)));
+        out.push(format!("WM S 3 2 2 {}", join_nums(&evs)));
+        out.push(format!("WM N 2 100 2 {}", join_nums(&evs)));
+        // session alpha node, timeout 1: clock = running maximum + 10 (never expires by the clock) / = own timestamp + 12
+        {
+            let mut mx = 0;
+            let ops: Vec<String> = s
+                .iter()
+                .map(|t| {
+                    mx = mx.max(*t);
+                    format!("{}@{}:i{}", mx + 10, t + 10, t)
+                })
+                .collect();
+            out.push(format!("AN E 1 100 {}", join_nums(&ops)));
+            let ops: Vec<String> = s.iter().map(|t| format!("{}@{}:i{}", 2 * t + 12, 2 * t + 10, t)).collect();
+            out.push(format!("AN E 2 2 {}", join_nums(&ops)));
+        }
+    }
+    // sliding `WindowedStream::new`: every *set* of timestamps matters (the constructor sees all events at once);
+    // each runs in a child process, so only sequences of length <= 3 here
+    for s in seqs.iter().filter(|s| s.len() <= 3) {
+        let evs: Vec<String> = s.iter().map(|t| format!("{}:n{}", 2 * t, t)).collect();
+        for (ty, d, cap) in [("S", 1u64, 100usize), ("S", 3, 100), ("N", 4, 1)] {
+            out.push(format!("WS {} {} {} {}", ty, d, cap, join_nums(&evs)));
+        }
     }
 }
 
@@ -495,13 +864,32 @@ fn gen(rng: &mut Rng, n: usize, tier: &str) -> Vec<String> {
             _ => gen_an(rng),
         });
     }
+    // the sliding / session modes: 3n/4 further cases (drawn after the n above, whose random stream is unchanged)
+    for i in 0..(3 * n / 4) {
+        out.push(match i % 3 {
+            0 => gen_wm_fixed(rng),
+            1 => gen_ws_sliding(rng),
+            _ => gen_an_session(rng),
+        });
+    }
+    // the other aggregates (n/8 cases)
+    for _ in 0..(n / 8) {
+        out.push(gen_ag(rng));
+    }
+    // one window with 33..130 events (n/50 cases), and every component at epoch-sized timestamps (n/8 cases)
+    for k in 0..(n / 50).max(60) {
+        out.push(gen_many(rng, k));
+    }
+    for k in 0..(n / 8).max(54) {
+        out.push(gen_epoch(rng, k));
+    }
     out
 }
 
 // ---------------------------------------------------------------- shrink
 fn shrink(case: &str) -> Vec<String> {
     let t: Vec<&str> = case.split_whitespace().collect();
-    if t.len() < 5 {
+    if t.len() < 5 && !(t.len() == 2 && t[0] == "AG") {
         return vec![];
     }
     let last = t.len() - 1;
